@@ -1,6 +1,7 @@
 # C07 - Every offending path is reported and the exit status reflects any
 #       failure (keep-going mode).
 
+import contextlib
 import hashlib
 import os
 
@@ -11,6 +12,7 @@ import harness
 import layout
 import mutate
 import refverify
+import shim
 import treegen
 from harness import Part, ok, violation, skip
 from treegen import BASE_MTIME
@@ -83,7 +85,11 @@ def case(draw):
     return {'tree': spec, 'manifests': rendered, 'muts': muts,
             'subpath': subpath, 'api': api, 'policy': policy,
             'salt': draw(st.integers(0, 99)), 'j': draw(st.integers(0, 3)),
-            'tags': lay['tags'], 'loop': bool(loop)}
+            'tags': lay['tags'], 'loop': bool(loop),
+            # harness-owned directory enumeration order: discrepancies come
+            # before and after each other in every walk order
+            'scandir': draw(st.sampled_from([None, 'sorted', 'reversed', 'a',
+                                             'b', 'c']))}
 
 
 def strat(tier):
@@ -130,13 +136,18 @@ def run_case(desc):
             returned.append(r)
             return r
 
+        order = shim.ScandirOrder(desc['scandir']) if desc.get('scandir') \
+            else contextlib.nullcontext()
         if desc['api'] == 'lib':
-            oc = gem.verify_lib(root, sub, fail_handler=handler)
+            with order:
+                oc = gem.verify_lib(root, sub, fail_handler=handler)
             what = (f'assert_directory_verifies({sub!r}, policy '
                     f'{desc["policy"]})')
         else:
-            oc, records, _ = gem.cli(
-                ['verify', '-k', os.path.join(root, sub) if sub else root])
+            with order:
+                oc, records, _ = gem.cli(
+                    ['verify', '-k',
+                     os.path.join(root, sub) if sub else root])
             calls = [os.path.normpath(p) for p in gem.mismatch_paths(records)]
             returned = [False] * len(calls)
             what = f'`gemato verify -k` of {sub!r}'
